@@ -21,7 +21,7 @@ from tracelib import *
 PROP = "C04"
 LEVEL = "exploration"
 FLAVOUR = "plain"
-TIERS = {"quick": (3000, 170), "thorough": (60000, 3300)}
+TIERS = {"quick": (2200, 170), "thorough": (45000, 3300)}
 RULE_TEXT = ("one run = one generated null-datamodel chart (<= 10 states, parallel/history/final, internal/targetless/multi-target/eventless transitions, "
              "raise/send/cancel/log/if content) x one timed history; the interpreter runs in the simulator, the emitted C is compiled with ASan+UBSan and hosted; "
              "compared: events dequeued, executed content (log, raise, send, cancel, done events) and configurations; non-trivial = at least 2 events and 3 "
@@ -42,7 +42,7 @@ class Context(object):
 
 def gen_plan(seed, k):
     rp = usimlib.substream(seed, "plan")
-    root = p_c01.gen_chart(rp, "null", {"late": False, "delayed_internal": False})
+    root = p_c01.gen_chart(rp, "null", {"late": False, "delayed_internal": False, "hist_p": 0.3})
     ops = [{"op": "create", "i": 0, "chart": "main", "engine": "default"}, {"op": "validate", "i": 0},
            {"op": "transform", "i": 0, "kind": "c", "full": True}]
     ops += p_c01.history_ops(rp, many=(True if (root.meta or {}).get("par_bias") and rp.random() < 0.8 else None))
